@@ -19,7 +19,7 @@ fn main() {
     let args: Vec<String> = std::env::args().collect();
     let mode = args.get(1).map(|s| s.as_str()).unwrap_or("");
     let parity = std::env::var("VERIF_PARITY").unwrap_or_else(|_| "even".into());
-    ledger::PARITY.store(match parity.as_str() { "odd" => 1, "alt" => 2, _ => 0 }, std::sync::atomic::Ordering::SeqCst);
+    ledger::PARITY.store(match parity.as_str() { "odd" => 1, "alt" => 2, "pack" => 3, _ => 0 }, std::sync::atomic::Ordering::SeqCst);
     let profile = if cfg!(debug_assertions) { "debug" } else { "release" };
     let rest = &args[2.min(args.len())..];
     let code = match mode {
